@@ -6,6 +6,7 @@ directory is populated with decoy files that would win the search if the real di
 imports are emitted, Sass imports loaded; (e) a missing import is an error located at the import site."""
 import os
 import posixpath
+import re
 import shutil
 import tempfile
 
@@ -235,6 +236,8 @@ def run(sh):
                         f.write(body)
         w = sh.worker("R", cwd=d)
         n = 0
+        if sh.shard == 0:
+            plain_css_family(sh, w)
         while not sh.expired():
             cases = [gen_multi(rng) if rng.chance(0.3) else gen_case(rng) for _ in range(48)]
             specs = [{"entry": c["importer"], "files": c["files"], "load_paths": c["load_paths"]} for c in cases]
@@ -253,6 +256,59 @@ def run(sh):
             strace_stage(sh, d)
     finally:
         shutil.rmtree(d, ignore_errors=True)
+
+
+PLAIN_FORMS = [
+    # (argument text of @import, text that must re-appear in the emitted rule)
+    ('url(%s)', 'url(%s)'), ('url("%s")', 'url("%s")'), ('"http://x.test/%s"', 'http://x.test/%s'), ('"https://x.test/%s"', 'https://x.test/%s'),
+    ('"//x.test/%s"', '//x.test/%s'), ('"%s.css"', '%s.css'), ('"%s" screen', '%s'), ('"%s" screen and (color)', '%s'),
+    ('"%s" (min-width: 1px)', '%s'), ('"%s" supports(display: grid)', '%s'), ('"%s.scss" print', '%s.scss'), ('"%s" not print', '%s'),
+    ('url(%s) screen', 'url(%s)'), ('"HTTP://x.test/%s"', 'HTTP://x.test/%s'), ("'%s.css'", '%s.css'), ('"%s.CSS"', None),
+]
+
+
+def plain_css_family(sh, w):
+    """every plain-CSS form of @import x where a loadable Sass file of that name exists beside the importer and in a load
+    path: the rule is emitted, nothing is loaded or probed; in a mixed list the Sass member is still loaded"""
+    from ..core import h64
+    for name in ("a", "lib/b", "c.d"):
+        base = posixpath.basename(name)
+        sub = posixpath.dirname(name)
+        files = {}
+        for root in ("", "lp/"):
+            for f in ("_%s.scss" % base, "%s.css" % base, "%s.scss.css" % base):
+                path = posixpath.join(root + sub, f) if sub else root + f
+                files[path] = '.loaded { f: "%s"; }\n' % path
+        for arg_t, echo_t in PLAIN_FORMS:
+            if echo_t is None:
+                continue          # (upper-case extension: not covered by the statement either way)
+            for mixed in (False, True):
+                arg = arg_t % name
+                text = ('@import "%s", %s;\n' % (name, arg)) if mixed else "@import %s;\n" % arg
+                fs = dict(files)
+                fs["main.scss"] = text + "z { y: x; }\n"
+                r = w.compile({"entry": "main.scss", "files": fs, "load_paths": ["lp"]})
+                sh.ev()
+                h = "%016x" % h64(text)
+                rp = {"case": {"how": "@import", "url": arg, "importer": "main.scss", "load_paths": ["lp"], "files": fs}}
+                facts = {"directive": text.strip(), "files": sorted(fs)}
+                if "ok" not in r:
+                    sh.violation("plain-css-import-rejected:" + h, "`%s` must be emitted as a CSS @import; grass fails: %s" % (text.strip(), (r.get("err") or {}).get("msg")), rp, facts)
+                    continue
+                out = r["ok"]
+                loaded = re.findall(r'f: "([^"]+)"', out)
+                want_loaded = [M.resolve(name, "main.scss", ["lp"], set(files), True)[0]] if mixed else []
+                touched = [posixpath.normpath(t[1]) for t in r.get("fs", []) if t[0] in ("read", "is_file") and posixpath.normpath(t[1]) != "main.scss"]
+                allowed = M.resolve(name, "main.scss", ["lp"], set(files), True)[1] if mixed else set()
+                if "@import" not in out or (echo_t % name) not in out:
+                    sh.violation("plain-css-import-not-emitted:" + h, "`%s` must re-appear as a CSS @import rule; output:\n%s" % (text.strip(), out[:300]), rp, facts)
+                elif loaded != want_loaded:
+                    sh.violation("plain-css-import-loaded:" + h, "`%s` loaded %s (expected %s)" % (text.strip(), loaded, want_loaded), rp, dict(facts, loaded=loaded))
+                elif any(t not in allowed for t in touched):
+                    sh.violation("plain-css-import-probed:" + h, "`%s` made the compiler look at %s on the file system" % (text.strip(), [t for t in touched if t not in allowed][:4]), rp, dict(facts, touched=touched))
+                else:
+                    sh.count("plain_css_family_agree")
+                    sh.nontrivial(["plain", text])
 
 
 def strace_stage(sh, d):
